@@ -344,8 +344,15 @@ impl<'a, P: Prefix, L, R> Iterator for Union<'a, P, L, R> {
                         lpm_l,
                         lpm_r,
                     );
+                    // report the prefix as it is stored with the entry: the left node's prefix is
+                    // only a branching point (or a leftover) if that node holds no value.
+                    let prefix = if node_l.value.is_some() {
+                        &node_l.prefix
+                    } else {
+                        &node_r.prefix
+                    };
                     if let Some(x) = self.get_next(
-                        &node_l.prefix,
+                        prefix,
                         node_l.value.as_ref(),
                         node_r.value.as_ref(),
                         lpm_l,
@@ -457,11 +464,13 @@ impl<'a, P: Prefix, L, R> Iterator for UnionMut<'a, P, L, R> {
                     let node_l = unsafe { self.table_l.get_mut(l) };
                     let node_r = unsafe { self.table_r.get_mut(r) };
                     if node_l.value.is_some() || node_r.value.is_some() {
-                        return Some((
-                            &node_l.prefix,
-                            node_l.value.as_mut(),
-                            node_r.value.as_mut(),
-                        ));
+                        // report the prefix as it is stored with the entry (see `Union::next`)
+                        let prefix = if node_l.value.is_some() {
+                            &node_l.prefix
+                        } else {
+                            &node_r.prefix
+                        };
+                        return Some((prefix, node_l.value.as_mut(), node_r.value.as_mut()));
                     }
                 }
                 UnionIndex::FirstL(l, r) => {
